@@ -182,6 +182,18 @@ pub fn functions(tier: Tier) -> Vec<FnRep> {
         base.extend(gen_polynomial(&few, &[1.0, -0.5], 3));
     }
     let mut out: Vec<FnRep> = base.iter().map(|f| rename(f, &|i| if i == 7 { 10 } else { i })).collect();
+    // 4- and 5-term linear functions in every order of the ids (so the term list is longer than
+    // the parameter assignment and unsorted), also inside a quadratic's linear part
+    for perm in permutations(4) {
+        let ids = [1u64, 2, 10, 11];
+        let cs = [1.0, -0.5, 2.0, 1.0];
+        let terms: Vec<(u64, f64)> = perm.iter().map(|k| (ids[*k], cs[*k])).collect();
+        out.push(FnRep::Lin { terms: terms.clone(), c: 0.5 });
+        let mut five = terms.clone();
+        five.insert(2, (ids[perm[0]], 0.5));
+        out.push(FnRep::Lin { terms: five, c: 0.0 });
+        out.push(FnRep::Quad { entries: vec![(10, 1, 1.0)], lin: Some((terms, 0.0)) });
+    }
     out.extend(base.iter().step_by(3).map(|f| rename(f, &|i| match i { 7 => 10, 2 => 11, x => x })));
     out
 }
